@@ -72,7 +72,16 @@ func c15goType(fs []c15field) reflect.Type {
 			}
 			tg = append(tg, fmt.Sprintf(`%s:"%s"`, tt.src, n))
 		}
-		if f.dflt != "" {
+		if f.dflt != "" && f.slice {
+			// a slice default is a JSON array in the tag; strings in single quotes (toDefaultValue turns them into double quotes)
+			el := strings.Split(f.dflt, ",")
+			if f.kind == "string" {
+				for j := range el {
+					el[j] = "'" + el[j] + "'"
+				}
+			}
+			tg = append(tg, fmt.Sprintf(`default:"[%s]"`, strings.Join(el, ",")))
+		} else if f.dflt != "" {
 			tg = append(tg, fmt.Sprintf(`default:"%s"`, f.dflt))
 		}
 		sf = append(sf, reflect.StructField{Name: fmt.Sprintf("F%d", i), Type: t, Tag: reflect.StructTag(strings.Join(tg, " "))})
@@ -420,6 +429,27 @@ func c15valueFor(t *T, kind string) string {
 	return v[t.R.Intn(len(v))]
 }
 
+// c15sliceDefaultElem: an element of a slice default, valid both as JSON and for the kind
+func c15sliceDefaultElem(t *T, kind string) string {
+	pick := func(v ...string) string { return v[t.R.Intn(len(v))] }
+	switch kind {
+	case "bool":
+		return pick("true", "false")
+	case "string":
+		return pick("a", "bc", "x9", "default")
+	case "int8":
+		return pick("-128", "127", "7", "0")
+	case "int16", "int32", "int64", "int":
+		return pick("-32768", "32767", "7", "0", "-1")
+	case "uint8":
+		return pick("0", "255", "7")
+	case "uint16", "uint32", "uint64", "uint":
+		return pick("0", "65535", "7")
+	default:
+		return pick("1.5", "-2", "0.25", "3")
+	}
+}
+
 func c15gen(t *T) (string, []string) {
 	n := 1 + t.R.Intn(6)
 	var recs []string
@@ -431,6 +461,13 @@ func c15gen(t *T) (string, []string) {
 			for dflt == "" || strings.ContainsAny(dflt, " ") {
 				dflt = c15valueFor(t, kind)
 			}
+		}
+		if slice && t.R.Intn(2) == 0 {
+			var el []string
+			for j, n := 0, 1+t.R.Intn(3); j < n; j++ {
+				el = append(el, c15sliceDefaultElem(t, kind))
+			}
+			dflt = strings.Join(el, ",")
 		}
 		var tags []string
 		for _, s := range c15srcs {
